@@ -360,7 +360,7 @@ def suites(tier, seed):
     rnd = random.Random(1000 + seed)
     src = rs.prelude() + rs.load("aead.rs") + rs.load("rng.rs") + BODY + INIT + OBJ
     hs = []
-    shapes = [(0, 0), (1, 0), (17, 5), (65, 16)] if tier == "quick" else [(0, 0), (1, 0), (15, 1), (16, 16), (17, 17), (63, 0), (64, 5), (65, 16), (80, 33)]
+    shapes = [(0, 0), (1, 0), (17, 5), (3, 21), (65, 16)] if tier == "quick" else [(0, 0), (1, 0), (15, 1), (16, 16), (17, 17), (63, 0), (64, 5), (65, 16), (80, 33)]
     for (mlen, adlen) in shapes:
         for kind, gen in (("push", h_push_a), ("pull", h_pull_a)):
             n = "c03_%s_anystate_m%d_ad%d" % (kind, mlen, adlen)
